@@ -68,7 +68,13 @@ func appendIfNotIn(ids []*Identity, chk *Identity) []*Identity {
 // addChildren adds identity r and all of its children to ids
 // deterministically.
 func addChildren(r *Identity, ids []*Identity) []*Identity {
+	n := len(ids)
 	ids = appendIfNotIn(ids, r)
+	if len(ids) == n {
+		// r is already there, and its children with it (or, in a
+		// derivation cycle, are being added further up the call chain).
+		return ids
+	}
 
 	// Iterate through the values of r.
 	for _, ch := range r.Values {
@@ -186,6 +192,12 @@ func (ms *Modules) resolveIdentities() []error {
 			return newValues[j].Name < newValues[k].Name
 		})
 		i.Identity.Values = newValues
+		for _, j := range newValues {
+			if j == i.Identity {
+				errs = append(errs, fmt.Errorf("%s: identity %s is derived from itself", Source(i.Identity), i.Identity.Name))
+				break
+			}
+		}
 	}
 
 	return errs
